@@ -329,6 +329,13 @@ func (r *Run) report(all []*Obligation, unbound, engErrs []string) int {
 		}
 		if o.Class == "bounded" {
 			// a bounded stand-in is reported on its own, never counted as an obligation discharged
+			if o.Answer == "error" {
+				// the stand-in did not run to completion (it does not build against this tree, or ran out of time):
+				// nothing can be said, which is not a violation
+				fmt.Printf("UNDECIDED property=%s %s: the bounded stand-in did not run to completion\n", r.Prop, o.Name)
+				r.Notes = append(r.Notes, "bounded stand-in did not run to completion: "+o.Name+": "+lastLines(o.Output, 3))
+				continue
+			}
 			if o.Answer != "unsat" {
 				if f := matchFinding(r.Findings, r.Prop, o.Name); f != nil {
 					known++
@@ -504,4 +511,12 @@ func (r *Run) report(all []*Obligation, unbound, engErrs []string) int {
 func seedFromEnv() int {
 	n, _ := strconv.Atoi(os.Getenv("VERIF_SEED"))
 	return n
+}
+
+func lastLines(s string, n int) string {
+	ls := strings.Split(strings.TrimSpace(s), "\n")
+	if len(ls) > n {
+		ls = ls[len(ls)-n:]
+	}
+	return strings.Join(ls, " | ")
 }
